@@ -269,6 +269,15 @@ package klog
 //@ ensures result == emod(dn(d.year, d.month, d.day) + 5, 7) + 1
 
 // ---------------------------------------------------------------------------------------------
+// Summaries: Tags() is text processing (regular expressions); callers that only need the numbers use this contract.
+//@ func (RecordSummary).Tags
+//@ trusted
+//@ ensures result != nil
+//@ func (EntrySummary).Tags
+//@ trusted
+//@ ensures result != nil
+
+// ---------------------------------------------------------------------------------------------
 // Entries and records
 
 // edur(e): the duration an entry contributes to the total: range -> end - start (shifted times are offsets on the
